@@ -47,6 +47,7 @@ MonInit(protos) ==
    alive |-> [n \in Nodes |-> TRUE],
    snapApp  |-> [n \in Nodes |-> FALSE],    \* at proof_begin the application held no connection
    snapDown |-> [n \in Nodes |-> {}],       \* protocols that held no connection at proof_begin
+   snapIdle |-> [n \in Nodes |-> FALSE],    \* at redial_begin the application held no connection
    taint |-> {},
    bad |-> "", badn |-> ""]
 
@@ -57,7 +58,7 @@ Judged(M, n) == M.alive[n] /\ n \notin M.taint
 MonEv(M, r) ==
   IF r.e = "kill" THEN [M EXCEPT !.alive[r.n] = FALSE]
   ELSE IF r.e \notin {"app_est", "app_closed", "p_est", "p_closed", "p_exit", "p_none", "pause", "resume",
-                      "proof_begin", "proof_ok", "quiesce", "redial", "newconn"} THEN M
+                      "proof_begin", "proof_ok", "quiesce", "redial_begin", "redial", "newconn"} THEN M
   ELSE IF ~Judged(M, r.n) THEN M
   ELSE LET n == r.n IN
   CASE r.e = "app_est" ->
@@ -89,9 +90,12 @@ MonEv(M, r) ==
          IF M.conns[n] # {} THEN Fail(M1, n, "silence: application never told that the connection closed")
          ELSE IF \E q \in M.run[n] : M.up[n][q] THEN Fail(M1, n, "silence: running protocol never told that the connection closed")
          ELSE M1
+    [] r.e = "redial_begin" -> [M EXCEPT !.snapIdle[n] = (M.conns[n] = {})]
     [] r.e = "redial" ->
          \* judged only when no earlier dial of this node was still unresolved (r.clean)
-         IF r.clean /\ M.conns[n] = {} /\ ~(r.ok /\ r.attempted) THEN Fail(M, n, "peer cannot be dialed again after the connection closed")
+         \* and the application held no connection when the probe began (the new connection may already
+         \* be announced when the probe's outcome is recorded)
+         IF r.clean /\ M.snapIdle[n] /\ ~(r.ok /\ r.attempted) THEN Fail(M, n, "peer cannot be dialed again after the connection closed")
          ELSE M
     [] r.e = "newconn" ->
          IF ~r.must THEN M
